@@ -95,6 +95,27 @@ Theorem C20_updates_single_section : forallb (single_section slot_class) update_
 Proof. vm_compute. reflexivity. Qed.
 Print Assumptions C20_updates_single_section.
 
+(** Stored state.  Every access to the store happens inside a critical section of a structural lock
+    (node state, channel map, a channel slot, the tracker), so by [C20_slot_atomic_partial] the writes
+    of two requests to one record are ordered like the sections that computed them; in particular an
+    allowlist request writes the allowlist while it still holds the node state it has just changed.
+    A request that releases the lock first and writes afterwards (seeded change C20h) makes these
+    obligations fail: the store could then receive the snapshots in the other order. *)
+Theorem C20_store_access_under_a_lock :
+  forallb (nested_under structural_classes store_class []) progs = true.
+Proof. vm_compute. reflexivity. Qed.
+Print Assumptions C20_store_access_under_a_lock.
+
+Theorem C20_allowlist_written_under_node_state :
+  forallb (nested_under [state_class] store_class []) allowlist_progs = true /\ allowlist_progs <> [].
+Proof. split; [vm_compute; reflexivity|vm_compute; discriminate]. Qed.
+Print Assumptions C20_allowlist_written_under_node_state.
+
+Example C20_nested_under_rejects_late_write :
+  nested_under [1] 8 [] [Acq (1, 0); Touch (1, 0); Rel (1, 0); Acq (8, 0); Rel (8, 0)] = false /\
+  nested_under [1] 8 [] [Acq (1, 0); Acq (8, 0); Rel (8, 0); Rel (1, 0)] = true.
+Proof. vm_compute. split; reflexivity. Qed.
+
 (** Lock-free shared state.  The key manager's counters (generated channel ids, entropy, base-point
     indices) are used before or without any mutex, so the lock programs say nothing about them.
     [counter_progs] (generated from the source on every run) lists, per function, the atomic
